@@ -58,6 +58,18 @@ Anns(blk, sw) ==
       swapped == IF n >= 3 THEN {[fam |-> "swapped_short_ids", A |-> Honest([blk EXCEPT ![2] = blk[3], ![3] = blk[2]], {1}, sw), L |-> blk]} ELSE {}
   IN honest \cup malformed \cup dupext \cup wrongpre \cup wrongsid \cup swapped
 
+\* witness malleation of the announced pieces (blocks with a witness commitment): the announcer strips the witness - independently -
+\* from the prefilled coinbase (sc), from the other prefilled transactions (sp), and computes the short ids over the stripped
+\* wtxids (ss). The txids, hence header and merkle root, stay those of the committed block.
+StripAnns(blk, sw) ==
+  LET n == Len(blk)
+      shown(PP, sc, sp, ss) == [j \in 1..n |-> IF j = 1 THEN (IF sc THEN CBS ELSE CB)
+                                               ELSE IF j \in PP THEN (IF sp THEN Strip(blk[j]) ELSE blk[j])
+                                               ELSE (IF ss THEN Strip(blk[j]) ELSE blk[j])]
+  IN {an \in {[fam |-> "witness_stripped", A |-> Honest(shown(PP, sc, sp, ss), PP, sw), L |-> blk] :
+                 PP \in PrefilledSets(n), sc \in BOOLEAN, sp \in BOOLEAN, ss \in BOOLEAN} :
+        \A PP \in PrefilledSets(n) : an.A # Honest(blk, PP, sw)}
+
 \* ---- blocktxn answers for the positions still missing
 MissingPos(av) == FreeSeq(av, 1)
 RightAnswer(av, L) == [i \in 1..Len(MissingPos(av)) |-> IF MissingPos(av)[i] <= Len(L) THEN L[MissingPos(av)[i]] ELSE "x"]
@@ -69,6 +81,7 @@ Answers(av, L) ==
                              [kind |-> "too_short", txs |-> SubSeq(r, 1, Len(r) - 1)],
                              [kind |-> "twin", txs |-> [i \in 1..Len(r) |-> Twin(r[i])]]} ELSE {})
   \cup (IF Len(r) >= 2 THEN {[kind |-> "reordered", txs |-> Reverse(r)]} ELSE {})
+  \cup (IF \E i \in 1..Len(r) : Strip(r[i]) # r[i] THEN {[kind |-> "stripped", txs |-> [i \in 1..Len(r) |-> Strip(r[i])]]} ELSE {})
 
 MkRow(kind, blk, commit, segwit, sw, an, pool, extra, ans) ==
   LET i1 == InitF(Fresh, an.A, pool, extra, sw)
@@ -85,14 +98,22 @@ MkRow(kind, blk, commit, segwit, sw, an, pool, extra, ans) ==
 
 \* announcements that are refused before any pool is looked at are combined with empty pools only
 EarlyRefused == {"header_null", "empty", "null_prefilled", "index_overflow", "index_out_of_range"}
-PoolsFor(an, blk, sw, k) == IF an.fam \in EarlyRefused THEN {<<>>} ELSE Pools(Relevant(blk, sw), k)
-ExtrasFor(an, blk, sw, k) == IF an.fam \in EarlyRefused THEN {<<>>} ELSE Extras(Relevant(blk, sw), k)
+\* with a witness-stripping announcer the pools may also hold the stripped forms of the block's transactions
+RelevantFor(an, blk, sw) == IF an.fam = "witness_stripped" THEN Relevant(blk, sw) \cup {Strip(t) : t \in Range(blk) \ {CB}} ELSE Relevant(blk, sw)
+PoolsFor(an, blk, sw, k) == IF an.fam \in EarlyRefused THEN {<<>>} ELSE Pools(RelevantFor(an, blk, sw), k)
+ExtrasFor(an, blk, sw, k) == IF an.fam \in EarlyRefused THEN {<<>>} ELSE Extras(RelevantFor(an, blk, sw), k)
+\* the committed block is itself not mutated under the world's rules: with an active witness commitment, or without any witness
+\* (otherwise its witness-stripped form is the block the header stands for - TLC found exactly these rows as soon as announced
+\* pieces could be witness-stripped: no commitment, or a commitment that is not enforced because segwit is not active)
+WellFormed(blk, commit, segwit) == ~Mutated(blk, blk, commit, segwit)
 Init ==
   \/ \E blk \in BlockSet : \E sw \in RelevantWorlds(blk) : \E an \in Anns(blk, sw) :
      \E pool \in PoolsFor(an, blk, sw, MaxPoolInit), extra \in ExtrasFor(an, blk, sw, MaxExtraInit) :
         row = MkRow("init", blk, TRUE, TRUE, sw, an, pool, extra,
                     [kind |-> "right", txs |-> RightAnswer(InitF(Fresh, an.A, pool, extra, sw).P.avail, an.L)])
-  \/ \E blk \in BlockSet, commit \in BOOLEAN, segwit \in BOOLEAN : \E sw \in RelevantWorlds(blk) : \E an \in Anns(blk, sw) :
+  \/ \E blk \in BlockSet, commit \in BOOLEAN, segwit \in BOOLEAN : \E sw \in RelevantWorlds(blk) :
+     WellFormed(blk, commit, segwit) /\
+     \E an \in Anns(blk, sw) \cup (IF commit THEN StripAnns(blk, sw) ELSE {}) :
      \E pool \in PoolsFor(an, blk, sw, MaxPoolFill), extra \in ExtrasFor(an, blk, sw, MaxExtraFill) :
      \E ans \in Answers(InitF(Fresh, an.A, pool, extra, sw).P.avail, an.L) :
         row = MkRow("fill", blk, commit, segwit, sw, an, pool, extra, ans)
